@@ -46,6 +46,14 @@ func (v refVerb) stripped() string {
 	return s + v.mode
 }
 
+// refMinusZeroPadsZeros selects the variant of the reference that follows the code as written for the
+// recorded finding format-minus-zero-flags-pad-zeros-on-the-right ("%-05v" pads with zeros on the right);
+// it is only used to attribute a deviation to that finding and nothing else
+var refMinusZeroPadsZeros = false
+
+// formatMaxWidthPrec: widths and precisions beyond it are outside the documented domain (format.go, /repo 84cbc5e)
+const refFormatMaxWidthPrec = 1000000
+
 func padClusters(o *oracle, s string, v refVerb) string {
 	if v.width < 0 {
 		return s
@@ -55,7 +63,7 @@ func padClusters(o *oracle, s string, v refVerb) string {
 		return s
 	}
 	pad := " "
-	if v.has('0') && !v.has('-') {
+	if v.has('0') && (!v.has('-') || refMinusZeroPadsZeros) {
 		pad = "0"
 	}
 	if v.has('-') {
@@ -95,20 +103,35 @@ func refFormat(o *oracle, format string, args []cty.Value, precZeroIgnored bool)
 			return "", false, judged
 		}
 		v := refVerb{raw: m[0], flags: m[1], mode: m[5], width: -1, prec: -1, argNum: next}
+		tooWide := false
 		if m[2] != "" {
-			v.width, _ = strconv.Atoi(m[2])
+			var err error
+			if v.width, err = strconv.Atoi(m[2]); err != nil || v.width > refFormatMaxWidthPrec {
+				tooWide = true
+			}
 		}
-		if m[3] != "" {
-			v.prec, _ = strconv.Atoi(m[3][1:]) // "." alone = 0, as in Go's fmt
+		if m[3] != "" && m[3] != "." { // "." alone = 0, as in Go's fmt
+			var err error
+			if v.prec, err = strconv.Atoi(m[3][1:]); err != nil || v.prec > refFormatMaxWidthPrec {
+				tooWide = true
+			}
+		} else if m[3] == "." {
+			v.prec = 0
 		}
 		if m[4] != "" {
-			v.argNum, _ = strconv.Atoi(m[4][1 : len(m[4])-1])
+			var err error
+			if v.argNum, err = strconv.Atoi(m[4][1 : len(m[4])-1]); err != nil {
+				v.argNum = int(^uint(0) >> 1) // beyond every argument, whatever its size
+			}
 		}
 		i += len(m[0])
 		if v.argNum > highest {
 			highest = v.argNum
 		}
 		if v.argNum > len(args) {
+			return "", false, judged
+		}
+		if tooWide {
 			return "", false, judged
 		}
 		a := args[v.argNum-1]
@@ -256,13 +279,27 @@ func genFormat(ctx *Ctx) (string, []cty.Value) {
 			}
 		} else if r.Intn(3) == 0 {
 			sb.WriteByte("-0#"[r.Intn(3)])
+			if r.Intn(4) == 0 { // flag combinations on %v %s %q %t too
+				sb.WriteByte("-0#+ "[r.Intn(5)])
+			}
 		}
+		hugeW := false
 		if r.Intn(3) == 0 {
-			sb.WriteString(strconv.Itoa(1 + r.Intn(12)))
+			if r.Intn(20) == 0 {
+				// widths beyond formatMaxWidthPrec and around the wrap-around points of 32/64-bit ints: an error, never a wrap
+				sb.WriteString(c14HugeWidths[r.Intn(len(c14HugeWidths))])
+				hugeW = true
+				ctx.Tag("format:huge-width")
+			} else {
+				sb.WriteString(strconv.Itoa(1 + r.Intn(12)))
+			}
 		}
 		if r.Intn(4) == 0 {
 			sb.WriteByte('.')
-			if r.Intn(8) != 0 {
+			if !hugeW && r.Intn(20) == 0 {
+				sb.WriteString(c14HugeWidths[r.Intn(len(c14HugeWidths))])
+				ctx.Tag("format:huge-precision")
+			} else if r.Intn(8) != 0 {
 				sb.WriteString(strconv.Itoa(r.Intn(6)))
 			}
 		}
@@ -298,6 +335,13 @@ func genFormat(ctx *Ctx) (string, []cty.Value) {
 	return sb.String(), args
 }
 
+// widths / precisions beyond formatMaxWidthPrec (1000000), up to and beyond the wrap-around points
+var c14HugeWidths = []string{"1000001", "1000010", "2147483647", "2147483648", "4294967297", "9223372036854775799", "9223372036854775800",
+	"9223372036854775807", "9223372036854775808", "18446744073709551616", "18446744073709551617", "18446744073709551621", "99999999999999999999999"}
+
+// a verb of mode v/s/q with a width and both the '-' and the '0' flag
+var fmtMinusZeroRe = regexp.MustCompile(`%[0#\-+ ]*(?:-[0#\-+ ]*0|0[0#\-+ ]*-)[0#\-+ ]*[1-9][0-9]*(?:\.[0-9]*)?(?:\[[0-9]+\])?[vsq]`)
+
 // decimal argument numbers around the wrap-around points of 32- and 64-bit integers
 var c14HugeIndexes = []string{"2147483648", "4294967296", "4294967297", "9223372036854775807", "9223372036854775808", "18446744073709551615",
 	"18446744073709551616", "18446744073709551617", "18446744073709551618", "99999999999999999999999", "36893488147419103233"}
@@ -306,8 +350,15 @@ func runC14Format(ctx *Ctx) {
 	n := ctx.N(5000, 100000)
 	for i := 0; i < n; i++ {
 		format, args := genFormat(ctx)
-		if i == 0 { // corpus: witness of the precision-zero defect repaired by d93e8c0, must pass
+		switch i {
+		case 0: // corpus: witness of the precision-zero defect repaired by d93e8c0, must pass
 			format, args = "%.0s", []cty.Value{sv("a")}
+		case 1: // corpus: width digits that wrapped around to width 1 before /repo 84cbc5e: an error now
+			format, args = "%18446744073709551617d", []cty.Value{cty.NumberIntVal(42)}
+		case 2: // corpus: the recorded finding (minus and zero flag together)
+			format, args = "%-05v", []cty.Value{cty.NumberIntVal(42)}
+		case 3: // corpus: an explicit index that saturates, after a valid verb
+			format, args = "%s%[9223372036854775800]s", []cty.Value{sv("a")}
 		}
 		fv := sv(format)
 		all := append([]cty.Value{fv}, args...)
@@ -327,74 +378,20 @@ func runC14Format(ctx *Ctx) {
 		if !judged {
 			ctx.Tag("format:reference-undefined")
 		}
+		if ok && judged && fmtMinusZeroRe.MatchString(format) {
+			// recorded finding: with '-' AND '0' formatPadWidth pads with ZEROS ON THE RIGHT ("%-05v" of 42 = "42000").
+			// The deviation is attributed to it only when the result is exactly what that root cause predicts.
+			ctx.Tag("format:minus-and-zero-flag")
+			refMinusZeroPadsZeros = true
+			alt, altOK, _ := refFormat(newOracle(), fv.AsString(), args, false)
+			refMinusZeroPadsZeros = false
+			if got, err := stdlib.Format(fv, args...); err == nil && altOK && alt != want && got.RawEquals(sv(o.nfc(alt))) {
+				c.failSig = "format-minus-zero-flags-pad-zeros-on-the-right"
+			}
+		}
 		runGlue(ctx, c)
 	}
-	// formatlist: element i is format() of the i-th members
-	m := ctx.N(400, 6000)
-	for i := 0; i < m; i++ {
-		r := ctx.R
-		l := r.Intn(4)
-		format := []string{"%s-%d", "%v/%v", "%[2]d:%[1]s", "%s%%%d", "%5s|%-3d|"}[r.Intn(5)]
-		mk := func(gen func() cty.Value, ty cty.Type) (cty.Value, []cty.Value) {
-			if r.Intn(3) == 0 {
-				v := gen()
-				return v, nil
-			}
-			els := make([]cty.Value, l)
-			for j := range els {
-				els[j] = gen()
-			}
-			if l == 0 {
-				return cty.ListValEmpty(ty), els
-			}
-			return cty.ListVal(els), els
-		}
-		a1, e1 := mk(func() cty.Value { return sv(genC14Str(ctx, 2)) }, cty.String)
-		a2, e2 := mk(func() cty.Value { return cty.NumberIntVal(int64(r.Intn(100))) }, cty.Number)
-		args := []cty.Value{sv(format), a1, a2}
-		out, res, class := stdOut(stdlib.FormatListFunc, args)
-		ctx.Tag("class:formatlist:" + class)
-		ctx.Eval("formatlist "+wireArgs(args), true)
-		cnt := 1
-		if e1 != nil || e2 != nil {
-			cnt = l
-		}
-		var want []cty.Value
-		bad := false
-		for j := 0; j < cnt; j++ {
-			x1, x2 := a1, a2
-			if e1 != nil {
-				x1 = e1[j]
-			}
-			if e2 != nil {
-				x2 = e2[j]
-			}
-			v, err := stdlib.Format(sv(format), x1, x2)
-			if err != nil {
-				bad = true
-				break
-			}
-			want = append(want, v)
-		}
-		switch {
-		case class == "panic" || class == "panicerr":
-			c14Fail(ctx, "formatlist", "formatlist-panic", "formatlist panicked", "FormatList", args, out)
-		case bad:
-			if class != "err" {
-				c14Fail(ctx, "formatlist", "formatlist-accepts", "an element fails in format() but formatlist succeeded", "FormatList", args, out)
-			}
-		case class != "ok":
-			c14Fail(ctx, "formatlist", "formatlist-rejects", "every element formats but formatlist failed", "FormatList", args, out)
-		default:
-			wantV := cty.ListValEmpty(cty.String)
-			if len(want) > 0 {
-				wantV = cty.ListVal(want)
-			}
-			if !res.RawEquals(wantV) {
-				c14Fail(ctx, "formatlist", "formatlist-differs", "formatlist is not the element-wise format()", "FormatList", args, out)
-			}
-		}
-	}
+	runC14FormatList(ctx)
 }
 
 // ---- jsonencode / jsondecode (search only here; the JSON codec itself is C15's subject) ----
